@@ -273,14 +273,17 @@ Converged ==
 ResetLivelockSig ==
   \E l \in LiveVoters : node[l].role = "L" /\ \E f \in (node[l].others \cup node[l].ro) \cap LiveNodes :
      LET fl == node[f].log
-         li == Last(fl).idx
-     IN /\ li < LastIdx(node[l]) /\ li >= FirstIdx(node[l])
-        /\ node[l].log[li - FirstIdx(node[l]) + 1].term # Last(fl).term
-        /\ f \in DOMAIN node[l].nextIdx /\ node[l].nextIdx[f] >= li + 1
-        \* ... and what the leader has beyond that index does not fit into one append_entries message
-        /\ LET after == {k \in 1..Len(node[l].log) : node[l].log[k].idx > li}
+         ll == node[l].log
+         TermIn(lg, j) == IF lg = <<>> \/ j < lg[1].idx \/ j > Last(lg).idx THEN -1 ELSE lg[j - lg[1].idx + 1].term
+         \* positions at which both hold an entry, of different terms (the follower's stale tail; it may be longer than the leader's log)
+         confl == {j \in FirstIdx(node[l])..LastIdx(node[l]) : TermIn(fl, j) # -1 /\ TermIn(fl, j) # TermIn(ll, j)}
+     IN /\ confl # {} /\ f \in DOMAIN node[l].nextIdx
+        \* ... and what the leader has from the first of them on does not fit into one append_entries message: every round the
+        \* answers to the later messages (each names its own conflicting previous entry) overwrite the answer to the first
+        /\ LET ci == CHOOSE j \in confl : \A k \in confl : j <= k
+               after == {k \in 1..Len(ll) : ll[k].idx >= ci}
                RECURSIVE Sum(_)
-               Sum(S) == IF S = {} THEN 0 ELSE LET k == CHOOSE x \in S : TRUE IN node[l].log[k].sz + Sum(S \ {k})
+               Sum(S) == IF S = {} THEN 0 ELSE LET k == CHOOSE x \in S : TRUE IN ll[k].sz + Sum(S \ {k})
            IN IF UseBatch THEN Sum(after) > BatchBytes ELSE Cardinality(after) >= 2
 
 StateViolations ==
